@@ -14,6 +14,12 @@ import (
 // clock and calling the limiter under one lock keeps the instants in order.
 var sendLimiterMu sync.Mutex
 
+// Number of tokens handed back so far, guarded by sendLimiterMu. x/time/rate works out what an
+// abandoned reservation may restore from the limiter's last event, and AllowN(now, -1) moves that
+// event back to now: cancelling a reservation made before a token was handed back would credit the
+// time up to its slot a second time. Such a reservation is left to lapse instead.
+var sendLimiterGiveBacks uint64
+
 func limiterAllow(l *rate.Limiter) bool {
 	sendLimiterMu.Lock()
 	defer sendLimiterMu.Unlock()
@@ -23,6 +29,7 @@ func limiterAllow(l *rate.Limiter) bool {
 func limiterGiveBack(l *rate.Limiter) {
 	sendLimiterMu.Lock()
 	defer sendLimiterMu.Unlock()
+	sendLimiterGiveBacks++
 	l.AllowN(time.Now(), -1)
 }
 
@@ -35,13 +42,16 @@ func limiterWait(ctx context.Context, l *rate.Limiter) error {
 	sendLimiterMu.Lock()
 	now := time.Now()
 	r := l.ReserveN(now, 1)
+	giveBacks := sendLimiterGiveBacks
 	sendLimiterMu.Unlock()
 	if !r.OK() {
 		return errors.New("rate: Wait(n=1) exceeds limiter's burst")
 	}
 	cancel := func() {
 		sendLimiterMu.Lock()
-		r.CancelAt(time.Now())
+		if giveBacks == sendLimiterGiveBacks {
+			r.CancelAt(time.Now())
+		}
 		sendLimiterMu.Unlock()
 	}
 	delay := r.DelayFrom(now)
